@@ -46,7 +46,7 @@ EXPECTED_PROBES = ["neutral-name-sniffed", "stdin-read", "first-chunk-inside-mag
 CODECS = ["none", "gz", "bz2", "lz4", "zst"]
 EXT = {"none": "", "gz": ".gz", "bz2": ".bz2", "lz4": ".lz4", "zst": ".zst"}
 MAGIC = {"gz": b"\x1f\x8b", "bz2": b"BZh", "lz4": b"\x04\x22\x4d\x18", "zst": b"\x28\xb5\x2f\xfd"}
-NAMINGS = ["ext-path", "neutral-path", "bytesio", "bufreader", "rawobj", "stdin-dash", "stdin-none", "scheme-stdin", "bufreader-small"]
+NAMINGS = ["ext-path", "neutral-path", "bytesio", "bufreader", "rawobj", "stdin-dash", "stdin-none", "scheme-stdin", "bufreader-small", "stdin-nopeek"]
 NEED_FIRST = {"gz": 2, "bz2": 3, "lz4": 4, "zst": 4}
 
 STREAM_TYPES = ["string", "varint", "uint32", "boolean", "float", "bytes", "datetime", "string[]", "path", "net.ipaddress"]
@@ -116,7 +116,14 @@ def generate(rng, tier, index):
             ops.append({"op": "write", "w": wid, "desc": k, "values": gen_values_avro(rng, pool[k][1])})
         else:
             k = rng.choice(keys)
-            ops.append({"op": "write", "w": wid, "desc": k, "values": gen.gen_record_values(rng, pool[k][1], big=rng.random() < 0.1)})
+            vals = gen.gen_record_values(rng, pool[k][1], big=rng.random() < 0.1)
+            if rng.random() < 0.06:
+                # a highly compressible record that is larger than the whole compressed file
+                for fi, (typ, _) in enumerate(pool[k][1]):
+                    if typ == "string":
+                        vals[fi] = rng.choice(["ab", "x", "0123456789"]) * rng.choice([2000, 9000, 30000])
+                        break
+            ops.append({"op": "write", "w": wid, "desc": k, "values": vals})
         if rng.random() < 0.1:
             ops.append({"op": "flush", "w": wid})
     reads = []
@@ -246,6 +253,10 @@ def do_read(w, plan, naming, delivery, data, container, codec, tag):
         elif naming == "rawobj":
             raw = w.new_raw("rb", data, hp, label=tag, seekable=False)
             rd = RecordReader(fileobj=raw)
+        elif naming == "stdin-nopeek":
+            w.set_stdin_nopeek(data, hp)
+            w.probe("stdin-read")
+            rd = RecordReader("-")
         elif naming in ("stdin-dash", "stdin-none", "scheme-stdin"):
             w.set_stdin(data, hp)
             w.probe("stdin-read")
@@ -355,7 +366,7 @@ def execute(plan, keep_log=False):
             plain0 = b""
         for ri, rd in enumerate(plan["reads"]):
             naming, delivery = rd["naming"], rd["delivery"]
-            deliv = delivery if naming in ("bufreader", "bufreader-small", "rawobj", "stdin-dash", "stdin-none", "scheme-stdin") else {"sizes": [], "tail": "whole", "kind": "whole"}
+            deliv = delivery if naming in ("bufreader", "bufreader-small", "rawobj", "stdin-dash", "stdin-none", "scheme-stdin", "stdin-nopeek") else {"sizes": [], "tail": "whole", "kind": "whole"}
             got, outcome, cls, stage = do_read(w, plan, naming, deliv, data, container, c, "r%d" % ri)
             evals += 1
             if naming == "neutral-path" and outcome == "ok":
